@@ -89,74 +89,119 @@ CAPS = {
 }
 
 
-def serialize(af, fmt, cdata=False, decl=True, typed=False):
-    """the canonical textual serialisation of an abstract feed in one format (str).
+def _arr(children, perm, salt):
+    """the children of one container in the order the style chooses (None: the canonical order)"""
+    if perm is None:
+        return children
+    import random
+    c = list(children)
+    random.Random(perm * 1000003 + salt).shuffle(c)
+    return c
+
+
+def serialize(af, fmt, cdata=False, decl=True, typed=False, style=None):
+    """the textual serialisation of an abstract feed in one format (str).
     typed=True: plain text is escaped once more where the format's element is HTML-typed (RSS description), so that the
-    document really SAYS the abstract text (C02); typed=False keeps the single escape (C11 / C20 / C10 only need well-formed feeds)."""
+    document really SAYS the abstract text (C02); typed=False keeps the single escape (C11 / C20 / C10 only need well-formed feeds).
+    style (all optional; the default is the canonical serialisation): {"perm": int} orders the metadata children of the feed
+    and of every entry by a permutation drawn from that seed (no format fixes the order of these children); {"prefix": p}
+    binds the format's own namespace (Atom 0.3 / 1.0, RSS 1.0) to the prefix p instead of using it as the default namespace,
+    {"dcprefix": p} renames the Dublin Core prefix of the RSS 1.0 serialisation.  An abstract entry may carry "content"
+    (full text, serialised HTML-typed: content:encoded / atom content / content_html) beside its summary."""
+    style = style or {}
+    perm, pfx, dcp = style.get("perm"), style.get("prefix"), style.get("dcprefix") or "dc"
+    q = (lambda n: "%s:%s" % (pfx, n)) if pfx else (lambda n: n)
     caps = CAPS[fmt]
     H = (lambda s, c=False: T(esc(s), c)) if typed else T
+    HH = lambda s, c=False: T(esc(s), c)          # always HTML-typed (content)
     head = '<?xml version="1.0" encoding="utf-8"?>\n' if decl else ""
+    anycontent = any(e.get("content") is not None for e in af["entries"])
     if fmt in ("rss091", "rss092", "rss20"):
         ver = {"rss091": "0.91", "rss092": "0.92", "rss20": "2.0"}[fmt]
-        out = [head, '<rss version="%s"><channel>' % ver, "<title>%s</title><link>%s</link><description>%s</description>" % (T(af["title"], cdata), esc(af["link"]), H(af["description"], cdata)),
-               "<lastBuildDate>%s</lastBuildDate>" % d822(af["updated"])]
-        for e in af["entries"]:
-            out.append("<item><title>%s</title><link>%s</link><description>%s</description>" % (T(e["title"], cdata), esc(e["link"]), H(e["summary"], cdata)))
+        meta = ["<title>%s</title>" % T(af["title"], cdata), "<link>%s</link>" % esc(af["link"]), "<description>%s</description>" % H(af["description"], cdata),
+                "<lastBuildDate>%s</lastBuildDate>" % d822(af["updated"])]
+        out = [head, '<rss version="%s"%s><channel>' % (ver, ' xmlns:content="http://purl.org/rss/1.0/modules/content/"' if anycontent else "")] + _arr(meta, perm, 0)
+        for i, e in enumerate(af["entries"]):
+            ch = ["<title>%s</title>" % T(e["title"], cdata), "<link>%s</link>" % esc(e["link"]), "<description>%s</description>" % H(e["summary"], cdata)]
             if "id" in caps:
-                out.append('<guid isPermaLink="false">%s</guid>' % esc(e["id"]))
+                ch.append('<guid isPermaLink="false">%s</guid>' % esc(e["id"]))
             if "author" in caps:
-                out.append("<author>%s (%s)</author>" % (esc(e["author_email"]), esc(e["author_name"])))
+                ch.append("<author>%s (%s)</author>" % (esc(e["author_email"]), esc(e["author_name"])))
             if "published" in caps:
-                out.append("<pubDate>%s</pubDate>" % d822(e["published"]))
+                ch.append("<pubDate>%s</pubDate>" % d822(e["published"]))
             if "categories" in caps:
-                out += ["<category>%s</category>" % T(c, cdata) for c in e["categories"]]
+                ch.append("".join("<category>%s</category>" % T(c, cdata) for c in e["categories"]))
             if "enclosures" in caps:
-                out += ['<enclosure url="%s" type="%s" length="%s"/>' % (aesc(x["url"]), aesc(x["type"]), x["length"]) for x in e["enclosures"]]
-            out.append("</item>")
+                ch.append("".join('<enclosure url="%s" type="%s" length="%s"/>' % (aesc(x["url"]), aesc(x["type"]), x["length"]) for x in e["enclosures"]))
+            if e.get("content") is not None:
+                ch.append("<content:encoded>%s</content:encoded>" % HH(e["content"], cdata))
+            out += ["<item>"] + _arr(ch, perm, i + 1) + ["</item>"]
         out.append("</channel></rss>")
         return "".join(out)
     if fmt == "rss10":
-        out = [head, '<rdf:RDF xmlns:rdf="http://www.w3.org/1999/02/22-rdf-syntax-ns#" xmlns="http://purl.org/rss/1.0/" xmlns:dc="http://purl.org/dc/elements/1.1/">',
-               '<channel rdf:about="%s"><title>%s</title><link>%s</link><description>%s</description><dc:date>%s</dc:date></channel>' % (
-                   aesc(af["link"]), T(af["title"], cdata), esc(af["link"]), H(af["description"], cdata), d3339(af["updated"]))]
-        for e in af["entries"]:
-            out.append('<item rdf:about="%s"><title>%s</title><link>%s</link><description>%s</description><dc:creator>%s</dc:creator><dc:date>%s</dc:date>' % (
-                aesc(e["id"]), T(e["title"], cdata), esc(e["link"]), H(e["summary"], cdata), esc(e["author_name"]), d3339(e["updated"])))
-            out += ["<dc:subject>%s</dc:subject>" % T(c, cdata) for c in e["categories"]]
-            out.append("</item>")
+        rssns = ('xmlns:%s="http://purl.org/rss/1.0/"' % pfx) if pfx else 'xmlns="http://purl.org/rss/1.0/"'
+        out = [head, '<rdf:RDF xmlns:rdf="http://www.w3.org/1999/02/22-rdf-syntax-ns#" %s xmlns:%s="http://purl.org/dc/elements/1.1/"%s>' % (
+            rssns, dcp, ' xmlns:content="http://purl.org/rss/1.0/modules/content/"' if anycontent else "")]
+        meta = ["<%s>%s</%s>" % (q("title"), T(af["title"], cdata), q("title")), "<%s>%s</%s>" % (q("link"), esc(af["link"]), q("link")),
+                "<%s>%s</%s>" % (q("description"), H(af["description"], cdata), q("description")), "<%s:date>%s</%s:date>" % (dcp, d3339(af["updated"]), dcp)]
+        out += ['<%s rdf:about="%s">' % (q("channel"), aesc(af["link"]))] + _arr(meta, perm, 0) + ["</%s>" % q("channel")]
+        for i, e in enumerate(af["entries"]):
+            ch = ["<%s>%s</%s>" % (q("title"), T(e["title"], cdata), q("title")), "<%s>%s</%s>" % (q("link"), esc(e["link"]), q("link")),
+                  "<%s>%s</%s>" % (q("description"), H(e["summary"], cdata), q("description")), "<%s:creator>%s</%s:creator>" % (dcp, esc(e["author_name"]), dcp),
+                  "<%s:date>%s</%s:date>" % (dcp, d3339(e["updated"]), dcp), "".join("<%s:subject>%s</%s:subject>" % (dcp, T(c, cdata), dcp) for c in e["categories"])]
+            if e.get("content") is not None:
+                ch.append("<content:encoded>%s</content:encoded>" % HH(e["content"], cdata))
+            out += ['<%s rdf:about="%s">' % (q("item"), aesc(e["id"]))] + _arr(ch, perm, i + 1) + ["</%s>" % q("item")]
         out.append("</rdf:RDF>")
         return "".join(out)
+    E = lambda n, body, attrs="": "<%s%s>%s</%s>" % (q(n), attrs, body, q(n))
+    V = lambda n, attrs: "<%s%s/>" % (q(n), attrs)
     if fmt == "atom03":
-        out = [head, '<feed version="0.3" xmlns="http://purl.org/atom/ns#"><title>%s</title><link rel="alternate" type="text/html" href="%s"/><tagline>%s</tagline><modified>%s</modified>' % (
-            T(af["title"], cdata), aesc(af["link"]), T(af["description"], cdata), d3339(af["updated"]))]
-        for e in af["entries"]:
-            out.append('<entry><title>%s</title><link rel="alternate" type="text/html" href="%s"/><id>%s</id><summary>%s</summary><author><name>%s</name><email>%s</email></author><issued>%s</issued><modified>%s</modified></entry>' % (
-                T(e["title"], cdata), aesc(e["link"]), esc(e["id"]), T(e["summary"], cdata), esc(e["author_name"]), esc(e["author_email"]), d3339(e["published"]), d3339(e["updated"])))
-        out.append("</feed>")
+        ns = ('xmlns:%s="http://purl.org/atom/ns#"' % pfx) if pfx else 'xmlns="http://purl.org/atom/ns#"'
+        meta = [E("title", T(af["title"], cdata)), V("link", ' rel="alternate" type="text/html" href="%s"' % aesc(af["link"])), E("tagline", T(af["description"], cdata)),
+                E("modified", d3339(af["updated"]))]
+        out = [head, '<%s version="0.3" %s>' % (q("feed"), ns)] + _arr(meta, perm, 0)
+        for i, e in enumerate(af["entries"]):
+            ch = [E("title", T(e["title"], cdata)), V("link", ' rel="alternate" type="text/html" href="%s"' % aesc(e["link"])), E("id", esc(e["id"])), E("summary", T(e["summary"], cdata)),
+                  E("author", E("name", esc(e["author_name"])) + E("email", esc(e["author_email"]))), E("issued", d3339(e["published"])), E("modified", d3339(e["updated"]))]
+            if e.get("content") is not None:
+                ch.append(E("content", HH(e["content"], cdata), ' type="text/html" mode="escaped"'))
+            out += ["<%s>" % q("entry")] + _arr(ch, perm, i + 1) + ["</%s>" % q("entry")]
+        out.append("</%s>" % q("feed"))
         return "".join(out)
     if fmt == "atom10":
-        out = [head, '<feed xmlns="http://www.w3.org/2005/Atom"><title>%s</title><link href="%s"/><subtitle>%s</subtitle><updated>%s</updated>' % (
-            T(af["title"], cdata), aesc(af["link"]), T(af["description"], cdata), d3339(af["updated"]))]
-        for e in af["entries"]:
-            out.append('<entry><title>%s</title><link href="%s"/><id>%s</id><summary>%s</summary><author><name>%s</name><email>%s</email></author><published>%s</published><updated>%s</updated>' % (
-                T(e["title"], cdata), aesc(e["link"]), esc(e["id"]), T(e["summary"], cdata), esc(e["author_name"]), esc(e["author_email"]), d3339(e["published"]), d3339(e["updated"])))
-            out += ['<category term="%s"/>' % aesc(c) for c in e["categories"]]
-            out += ['<link rel="enclosure" href="%s" type="%s" length="%s"/>' % (aesc(x["url"]), aesc(x["type"]), x["length"]) for x in e["enclosures"]]
-            out.append("</entry>")
-        out.append("</feed>")
+        ns = ('xmlns:%s="http://www.w3.org/2005/Atom"' % pfx) if pfx else 'xmlns="http://www.w3.org/2005/Atom"'
+        meta = [E("title", T(af["title"], cdata)), V("link", ' href="%s"' % aesc(af["link"])), E("subtitle", T(af["description"], cdata)), E("updated", d3339(af["updated"]))]
+        out = [head, "<%s %s>" % (q("feed"), ns)] + _arr(meta, perm, 0)
+        for i, e in enumerate(af["entries"]):
+            ch = [E("title", T(e["title"], cdata)), V("link", ' href="%s"' % aesc(e["link"])), E("id", esc(e["id"])), E("summary", T(e["summary"], cdata)),
+                  E("author", E("name", esc(e["author_name"])) + E("email", esc(e["author_email"]))), E("published", d3339(e["published"])), E("updated", d3339(e["updated"])),
+                  "".join(V("category", ' term="%s"' % aesc(c)) for c in e["categories"]),
+                  "".join(V("link", ' rel="enclosure" href="%s" type="%s" length="%s"' % (aesc(x["url"]), aesc(x["type"]), x["length"])) for x in e["enclosures"])]
+            if e.get("content") is not None:
+                ch.append(E("content", HH(e["content"], cdata), ' type="html"'))
+            out += ["<%s>" % q("entry")] + _arr(ch, perm, i + 1) + ["</%s>" % q("entry")]
+        out.append("</%s>" % q("feed"))
         return "".join(out)
     # JSON Feed
     v = "https://jsonfeed.org/version/1" + (".1" if fmt == "json11" else "")
     items = []
-    for e in af["entries"]:
+    for i, e in enumerate(af["entries"]):
         it = {"id": e["id"], "title": e["title"], "url": e["link"], "summary": e["summary"], "author": {"name": e["author_name"]},
               "date_published": d3339(e["published"]), "date_modified": d3339(e["updated"])}
         if e["categories"]:
             it["tags"] = e["categories"]
         if e["enclosures"]:
             it["attachments"] = [{"url": x["url"], "mime_type": x["type"], "size_in_bytes": int(x["length"])} for x in e["enclosures"]]
+        if e.get("content") is not None:
+            it["content_html"] = esc(e["content"])
+        if perm is not None:
+            it = dict(_arr(list(it.items()), perm, i + 1))
         items.append(it)
-    return json.dumps({"version": v, "title": af["title"], "home_page_url": af["link"], "description": af["description"], "items": items}, ensure_ascii=False)
+    top = {"version": v, "title": af["title"], "home_page_url": af["link"], "description": af["description"], "items": items}
+    if perm is not None:
+        top = dict(_arr(list(top.items()), perm, 0))
+    return json.dumps(top, ensure_ascii=False)
 
 
 # ---------------------------------------------------------------- vocabulary-wide well-formed documents (reference-free)
